@@ -459,6 +459,14 @@ pub fn random_edit(prop: &str, rng: &mut Rng, world: &mut World) -> Option<J> {
                 r.spell_seed = rng.next() | 1;
                 what.push("respell-paths");
             }
+            if rng.chance(1, 4) {
+                r.shadow_seed = if r.shadow_seed == 0 { rng.next() | 1 } else { 0 };
+                what.push("paths-via-block-variables");
+            }
+            if rng.chance(1, 4) {
+                r.sub_builddir = !r.sub_builddir;
+                what.push("subninja-with-private-builddir");
+            }
             if what.is_empty() {
                 r.perm_seed = rng.next() | 1;
                 what.push("reorder");
@@ -744,6 +752,12 @@ fn history_case(ctx: &Ctx, dir: &std::path::Path, case: u64, seed: u64, rep: &mu
         // every path of the manifest (outputs, inputs of every role, `default` targets) in a spelling of its own
         world.ropts.spell_seed = rng.next() | 1;
         world.ropts.via_vars = rng.chance(1, 3);
+    } else if rng.chance(1, 5) {
+        world.ropts.spell_seed = rng.next() | 1;
+    }
+    if rng.chance(1, 5) {
+        // paths written through block variables that shadow file-level ones
+        world.ropts.shadow_seed = rng.next() | 1;
     }
     if prop == "C17" && rng.chance(1, 3) {
         // the CMake layout: the generator rewrites an included file along with the manifest
